@@ -34,6 +34,7 @@ type Val struct {
 	T     types.Type // Go type when known
 	Elem  types.Type // slice / pointer element type
 	Lit   *closureLit
+	Inner *Val // statically boxed concrete value (spec evaluation only); T is its dynamic type
 }
 
 func (k Kind) sort() string {
